@@ -167,6 +167,9 @@ func (m mergeRunner) Run(c *Ctx, i int) CaseResult {
 		for s := range svcs {
 			mc.SDLs = append(mc.SDLs, renderService(svcs[s], s))
 		}
+		if r.Intn(5) == 0 {
+			mc.OldPrelude = 1 + r.Intn(len(mc.SDLs))
+		}
 		if r.Intn(3) == 0 {
 			// the gateway is given query fields of its own (always under the same one or two names, with whatever
 			// type and arguments this case draws: gateways built one after the other in one process differ in them)
@@ -197,6 +200,13 @@ func (m mergeRunner) Run(c *Ctx, i int) CaseResult {
 		}
 		schemas = append(schemas, s)
 	}
+	if mc.OldPrelude > 0 && mc.OldPrelude <= len(schemas) {
+		if d := schemas[mc.OldPrelude-1].Directives["deprecated"]; d != nil {
+			old := *d
+			old.Locations = []ast.DirectiveLocation{ast.LocationFieldDefinition, ast.LocationEnumValue}
+			schemas[mc.OldPrelude-1].Directives["deprecated"] = &old
+		}
+	}
 	internal, _ := gqlparser.LoadSchema(&ast.Source{Input: internalSDL})
 	// the gateway's own additions: Node, Query.node and the query fields it was given (a type they name must be one
 	// a service declares)
@@ -206,6 +216,9 @@ func (m mergeRunner) Run(c *Ctx, i int) CaseResult {
 	feat := map[string]bool{fmt.Sprintf("services-%d", len(mc.SDLs)): true}
 	if len(mc.GatewayFields) > 0 {
 		feat["gateway-query-fields"] = true
+	}
+	if mc.OldPrelude > 0 {
+		feat["old-prelude"] = true
 	}
 	if mc.Mutation != "" {
 		feat["mutation:"+strings.SplitN(mc.Mutation, ":", 2)[0]] = true
@@ -294,6 +307,12 @@ func (m mergeRunner) Run(c *Ctx, i int) CaseResult {
 				// whatever the model says about compatibility: a construction that succeeded must contain every type,
 				// field, argument, enum value, union member and interface of every service it was built from
 				if miss := missingFromMerged(out.Fed.Merged, schemas, order); miss != "" {
+					add("L0.contains", "construction succeeded but the merged schema lacks "+miss, nil, nil)
+				}
+				// every directive a service declares — the built-in ones included, whose definitions differ between
+				// revisions of the specification — is declared by the merged schema with at least the service's
+				// locations and arguments
+				if miss := directivesMissing(out.Fed.Merged, schemas, order); miss != "" {
 					add("L0.contains", "construction succeeded but the merged schema lacks "+miss, nil, nil)
 				}
 				// the merged schema must be a valid schema again
@@ -600,6 +619,43 @@ func init() {
 	Runners["C03"] = mergeRunner{"C03"}
 	Runners["C09"] = mergeRunner{"C09"}
 	Runners["C10"] = mergeRunner{"C10"}
+}
+
+// directivesMissing names the first directive declaration part of a service that the merged schema does not hold
+func directivesMissing(merged *ast.Schema, schemas []*ast.Schema, order []int) string {
+	for _, k := range order {
+		var names []string
+		for n := range schemas[k].Directives {
+			names = append(names, n)
+		}
+		sort.Strings(names)
+		for _, n := range names {
+			d, m := schemas[k].Directives[n], merged.Directives[n]
+			if d == nil {
+				continue
+			}
+			if m == nil {
+				return fmt.Sprintf("directive @%s of service %d", n, k)
+			}
+			for _, l := range d.Locations {
+				found := false
+				for _, ml := range m.Locations {
+					if ml == l {
+						found = true
+					}
+				}
+				if !found {
+					return fmt.Sprintf("location %s of directive @%s of service %d (merged: %v)", l, n, k, m.Locations)
+				}
+			}
+			for _, a := range d.Arguments {
+				if m.Arguments.ForName(a.Name) == nil {
+					return fmt.Sprintf("argument %s of directive @%s of service %d", a.Name, n, k)
+				}
+			}
+		}
+	}
+	return ""
 }
 
 // missingFromMerged names the first definition part of a service that the merged schema does not hold ("" if none)
